@@ -364,8 +364,8 @@ pub fn macroexpand(ctx: &mut TulispContext, inp: TulispObject) -> Result<TulispO
     if !inp.consp() {
         return Ok(inp);
     }
+    // `inp` is only read: it may be a list that a caller is still iterating.
     let expr = inp.clone();
-    expr.with_ctxobj(inp.ctxobj());
     let exp_car = expr.car()?;
     let value = match exp_car.get() {
         Ok(val) => val,
